@@ -6,6 +6,8 @@ pub mod c01;
 pub mod c02;
 pub mod c03;
 pub mod c04;
+pub mod c05;
+pub mod c06;
 pub mod c07;
 pub mod c08;
 pub mod c09;
@@ -20,7 +22,7 @@ pub mod c16;
 pub mod c18;
 
 pub fn all() -> Vec<Check> {
-    vec![c01::check(), c02::check(), c03::check(), c04::check(), c07::check(), c08::check(), c09::check(), c10::check(), c11::check(), c17::check(), c12::check(), c13::check(), c14::check(), c15::check(), c16::check(), c18::check()]
+    vec![c01::check(), c02::check(), c03::check(), c04::check(), c05::check(), c06::check(), c07::check(), c08::check(), c09::check(), c10::check(), c11::check(), c17::check(), c12::check(), c13::check(), c14::check(), c15::check(), c16::check(), c18::check()]
 }
 
 pub fn probe_main(args: &[String]) -> i32 {
